@@ -380,7 +380,7 @@ def _update_contract(vc, method):
         vc.ensure("typed.raises_typeerror", (not out.ok) and out.raised_type() is TypeError)
         vc.ensure("typed.never_holds_bad_value", And(*[Not(same(vc, post[k], new[k])) for k in known if not conf[k]]))
         # transactional: every option has its previous value. Fails when an earlier key of the same call was already assigned.
-        vc.ensure_kf("typed.rejected_update_restores_all", _all_same(vc, post, old), "KF-C44-1", first_bad > 0)
+        vc.ensure("typed.rejected_update_restores_all", _all_same(vc, post, old))  # was recorded finding KF-C44-1, repaired in /repo (see known_findings.d)
         vc.ensure("typed.listeners_not_left_with_partial_state", len(l1_obs) == 0 or _all_same(vc, l1_obs[-1][2], old))
         return
     if not known:
@@ -406,7 +406,7 @@ def _update_contract(vc, method):
     if method == "update" and unknown:
         vc.ensure("update.unknown_key.raises_keyerror", (not out.ok) and out.raised_type() is KeyError)
         # a rejected update must leave every option at its previous value (fails: the known keys were applied first)
-        vc.ensure_kf("update.unknown_key.rejected_update_restores_all", _all_same(vc, post, old), "KF-C44-2", bool(known))
+        vc.ensure("update.unknown_key.rejected_update_restores_all", _all_same(vc, post, old))  # was recorded finding KF-C44-2, repaired in /repo (see known_findings.d)
         if known:
             return
     else:
